@@ -38,6 +38,12 @@ CLAIMED["C17"] = ("25 theorems on the price-discovery model: phase = documented 
     "staying in the pool; tracked balances = real holdings and supply = circulating redeem tokens in every reachable state before redeem; redeem pays floor(pool*amount/supply) once, total payouts <= pool over any history; "
     "price floor for withdrawals and launched-token deposits (after the F6 repair, with the bootstrap case stated). Tied to dex/price-discovery by differential replay + monitors.", "7 C17",
     "Coq invariants + characterisation theorems + correspondence")
+CLAIMED["C08"] = ("Refinement invariant proved for every history of the composed model (energy factory + token-unstake + lkmex-transfer + locked-token-wrapper): each account's lazily updated energy entry "
+    "equals sum balance*(unlock-now) over the locked tokens it holds (signed), its total equals sum balance, escrows carry no energy and are backed; every new token unlocks strictly in the future. "
+    "Tied to the real contracts by differential replay; monitors recompute both sums from real balances and attributes.", "7 C08", "Coq refinement invariant by induction over operations + correspondence")
+CLAIMED["C18"] = ("22 theorems on the governance-v2 model: status = documented function with rational thresholds (integer forms proved equivalent), None iff unused/cancelled; one vote per address per proposal, only while Active, "
+    "power = isqrt(energy) (specified and proved), quorum weight = energy, tallies = sums over distinct ballots; fee escrow: leaves at most once, exact refund/burn split, contract balance = sum of un-withdrawn fees. "
+    "Tied to governance-v2 + energy mock + fees collector by differential replay with boundary-aligned vote multisets.", "7 C18", "Coq invariants + characterisation theorems + correspondence")
 NOT_YET = {}
 
 def main():
